@@ -578,6 +578,21 @@ okp(a,b) <-- cand(a), cand(b), (good!(a) | vip(a)), good!(b);
 ok3(a,b,c) <-- cand(a), cand(b), cand(c), good!(a), (better!(a, b) | good!(b)), better!(b, c);
 """, "mac par sugar", bound=4)
 
+# macro-local variables named m / m1 (generated names must not collide across invocations), and a block expression that
+# re-binds a macro-local variable in terms of itself while the call site has a variable of the same name
+prog("mac_local_names", """
+rel e(int,int) input; rel three(int,int); rel six(int,int);
+macro hop3(a, b) { e(a, m), e(m, m1), e(m1, b) }
+three(a,b) <-- hop3!(a, b);
+six(a,c) <-- hop3!(a, b), hop3!(b, c);
+""", "mac par", bound=4, dom=3)
+
+prog("mac_block", """
+rel inp(int,int) input; rel nxt(int,int) input; rel res(int,int,int);
+macro bump(a, r) { let v = a, nxt(blk(v, v + 1, v * 2), r) }
+res(v, w, r) <-- inp(v, w), bump!(w, r);
+""", "mac par", bound=3, dom=3)
+
 prog("mac_disj", """
 rel e(int,int) input; rel f(int,int) input; rel r(int,int);
 macro either(a, b) { (e(a, b) | f(a, b) | e(a, t), f(t, b)) }
